@@ -142,6 +142,24 @@ func c03Faults(r *core.Run, w *world.World, d *c03Doc, B *world.PKI) []c03Fault 
 	authBroken("foreign-key,genuine-header", with(world.Envelope(world.Member{M, E}, world.Member{"signature", sigField(fk, E)}), nil), "signature is not from the TCB signer")
 	authBroken("lookalike-pki,matching-header", with(world.SignedBody(M, E, B.TcbKey), hdrOf(world.IssuerChainHeader(B.Tcb, B.Root))), "signer chains to a root that is not trusted")
 	authBroken("lookalike-signer,genuine-root-in-header", with(world.SignedBody(M, E, B.TcbKey), hdrOf(world.IssuerChainHeader(B.Tcb, w.A.Root))), "signer is not issued by the header's root")
+	{
+		// the same foreign hierarchy whose signing (or root) certificate has a legal but unusual feature
+		// that stops standard path validation early: that error must not stand in for the anchoring
+		at := w.Times[world.TTcb]
+		if d.route != "tcb" {
+			at = w.Times[world.TQE]
+		}
+		for _, od := range certOddities(at) {
+			B4 := world.NewPKI(t, "B4", w.Epoch, w.A)
+			od.edit(&B4.TcbSpec)
+			B4.Rebuild()
+			authBroken("lookalike-pki-signer-"+od.name, with(world.SignedBody(M, E, B4.TcbKey), hdrOf(world.IssuerChainHeader(B4.Tcb, B4.Root))), "signer chains to a root that is not trusted (and is "+od.name+")")
+		}
+		B5 := world.NewPKI(t, "B5", w.Epoch, w.A)
+		B5.RootSpec.Win = world.Window{NotBefore: at.AddDate(0, 0, 30), NotAfter: at.AddDate(20, 0, 0)}
+		B5.Rebuild()
+		authBroken("lookalike-pki-root-not-yet-valid", with(world.SignedBody(M, E, B5.TcbKey), hdrOf(world.IssuerChainHeader(B5.Tcb, B5.Root))), "signer chains to a root that is not trusted (and is not yet valid)")
+	}
 	authBroken("platform-ca-key", with(world.SignedBody(M, E, w.A.PlatKey), hdrOf(world.IssuerChainHeader(w.A.Plat, w.A.Root))), "signer does not have the TCB-signing role")
 	authBroken("pck-key", with(world.SignedBody(M, E, w.P.PCKKey), hdrOf(world.IssuerChainHeader(w.P.PCK, w.A.Root))), "signer does not have the TCB-signing role")
 	authBroken("root-key-as-signer", with(world.SignedBody(M, E, w.A.RootKey), hdrOf(world.IssuerChainHeader(w.A.Root, w.A.Root))), "signer does not have the TCB-signing role")
@@ -389,22 +407,22 @@ func c03Run(r *core.Run) {
 	good := c03Endpoint(w, d)
 
 	judge := func(name string, ep *world.Endpoint, expect world.Expectation, why string) {
-		c03SetEndpoint(w, d, ep)
-		level := O1
-		if len(name)%2 == 0 {
-			level = O2
-		}
-		o := verifyRaw(raw, worldOpts(w, level))
-		c03SetEndpoint(w, d, good)
-		r.Eval()
-		if expect == world.MustAccept && !o.Accepted() {
-			r.Violate("C03:genuine-rejected:"+d.route+":"+classOfFault(name), "%s endpoint variation %q rejected at level %s although %s: %s", d.route, name, optNames[level], why, o.ErrText())
-		}
-		if expect == world.MustReject && o.Accepted() {
-			r.Violate("C03:accepted:"+d.route+":"+classOfFault(name), "%s endpoint fault %q accepted at level %s: %s (world %s)", d.route, name, optNames[level], why, w.Describe())
-		}
-		if o.Panicked {
-			r.Count("panics_seen(reported by C10)", 1)
+		// every fault is judged with collateral checking alone and with revocation checking on top: some
+		// forgeries are stopped only by a later check of the other setting, which must not be relied upon
+		for _, level := range []int{O1, O2} {
+			c03SetEndpoint(w, d, ep)
+			o := verifyRaw(raw, worldOpts(w, level))
+			c03SetEndpoint(w, d, good)
+			r.Eval()
+			if expect == world.MustAccept && !o.Accepted() {
+				r.Violate("C03:genuine-rejected:"+d.route+":"+classOfFault(name), "%s endpoint variation %q rejected at level %s although %s: %s", d.route, name, optNames[level], why, o.ErrText())
+			}
+			if expect == world.MustReject && o.Accepted() {
+				r.Violate("C03:accepted:"+d.route+":"+classOfFault(name), "%s endpoint fault %q accepted at level %s: %s (world %s)", d.route, name, optNames[level], why, w.Describe())
+			}
+			if o.Panicked {
+				r.Count("panics_seen(reported by C10)", 1)
+			}
 		}
 	}
 
